@@ -262,6 +262,15 @@ func genC02(r *Rng, e *Emitter, n int) {
 				obs = append(obs, "u")
 				e.tally("op=clone")
 			case c < 12:
+				if r.chance(1, 2) {
+					// the other value becomes a clone of the receiver: from here on both are pushed to
+					// (through swap) and observed independently
+					ops = append(ops, "fork")
+					g2 = g.clone()
+					obs = append(obs, "u")
+					e.tally("op=fork")
+					break
+				}
 				ops = append(ops, "swap")
 				g.swap(g2)
 				obs = append(obs, "u")
